@@ -13,8 +13,10 @@
   Modelling choices (named in the evidence): the final "drop read locks; store every write;
   unlock" is ONE step — during it every written variable is exclusively locked by the committing
   thread, so no other thread can observe or modify those variables in between; the order in
-  which the variables are locked (address order in the real code, which is what excludes
-  deadlock) is left arbitrary: safety does not depend on it.
+  which the variables are locked is a PARAMETER `ord` of the step function (the real code walks a
+  `BTreeMap` keyed by the address of the variable's control block, i.e. a fixed global order):
+  safety (Props/C07B.lean) holds for every `ord` that loses no variable, absence of deadlock
+  (Props/C07Live.lean) for every `ord` that sorts along an injective rank.
 -/
 import Honeycomb.Model.StmProto
 
@@ -59,8 +61,9 @@ def otherWriteHolds (s : SysB Var Val ε α) (i : Nat) (v : Var) : Bool :=
 def validAt (t : Thread Var Val ε α) (st : VStore Var Val) (v : Var) : Bool :=
   t.att.reads.all (fun r => r.1 ≠ v || (st v).2 = r.2.2)
 
-/-- one step of thread `i` -/
-def SysB.step (s : SysB Var Val ε α) (i : Nat) : SysB Var Val ε α :=
+/-- one step of thread `i`; `ord` arranges the variables of the log in the order in which
+    `commit()` locks them -/
+def SysB.step (ord : List Var → List Var) (s : SysB Var Val ε α) (i : Nat) : SysB Var Val ε α :=
   match s.threads[i]? with
   | none => s
   | some tb =>
@@ -72,7 +75,7 @@ def SysB.step (s : SysB Var Val ε α) (i : Nat) : SysB Var Val ε α :=
         match tb.th.att.pc with
         | .ret _ =>
             -- enter commit(): nothing is locked yet
-            { s with threads := s.threads.set i { tb with ph := some (logVars tb.th, []) } }
+            { s with threads := s.threads.set i { tb with ph := some (ord (logVars tb.th), []) } }
         | .read v _ =>
             -- a first read of `v` from shared memory needs its read lock for an instant
             let ℓ := tb.th.att.toLog
@@ -106,7 +109,8 @@ def SysB.step (s : SysB Var Val ε α) (i : Nat) : SysB Var Val ε α :=
               commits := s.commits ++ [(i, p0, a)] }
         | _ => s
 
-def SysB.exec (s : SysB Var Val ε α) (sched : List Nat) : SysB Var Val ε α := sched.foldl SysB.step s
+def SysB.exec (ord : List Var → List Var) (s : SysB Var Val ε α) (sched : List Nat) : SysB Var Val ε α :=
+  sched.foldl (SysB.step ord) s
 
 def SysB.init (st : Var → Val) (progs : List (List (Prog Var Val ε α))) : SysB Var Val ε α :=
   { store := fun v => (st v, 0), threads := progs.map fun ps => { th := Thread.start ps } }
